@@ -115,6 +115,16 @@ func main() {
 		shrink(os.Args[2:])
 	case "oracle":
 		oracleMain(os.Args[2:])
+	case "systotal":
+		// simworker systotal <prop> <tier>: size of the systematic corpus
+		if len(os.Args) != 4 {
+			os.Exit(2)
+		}
+		var n uint64
+		if ig, ok := lookupEngine(os.Args[2], "").(detsim.IndexedGenerator); ok {
+			n = ig.SystematicTotal(os.Args[2], os.Args[3])
+		}
+		fmt.Println(n)
 	default:
 		fmt.Fprintln(os.Stderr, "simworker: unknown command", os.Args[1])
 		os.Exit(2)
@@ -133,6 +143,8 @@ func batch(args []string) {
 	shape := fs.String("shape", "", "force a plan shape")
 	maxWall := fs.Duration("maxwall", 0, "stop after this wall time (0: none)")
 	treeHash := fs.String("tree", "", "hash of the repository tree (recorded in replay files)")
+	sysFrom := fs.Uint64("sysfrom", 0, "first case of this worker's share of the systematic corpus")
+	sysTo := fs.Uint64("systo", 0, "one past the last case of the share")
 	fs.Parse(args)
 	e := engineFor(*prop, *shape)
 	rl := detsim.NewRaceLog(raceLogPrefix())
@@ -143,15 +155,25 @@ func batch(args []string) {
 	states := detsim.NewHashSet(200000)
 	start := time.Now()
 	seenSig := map[string]bool{}
-	for idx := *from; idx < *to; idx++ {
-		if *maxWall > 0 && idx%16 == 0 && time.Since(start) > *maxWall {
-			break
+	ig, _ := e.(detsim.IndexedGenerator)
+	if ig == nil {
+		*sysFrom, *sysTo = 0, 0
+	}
+	nSys := *sysTo - *sysFrom
+	for step := uint64(0); step < nSys+(*to-*from); step++ {
+		var idx uint64
+		var plan interface{}
+		if step < nSys {
+			// this worker's share of the systematic corpus: always run completely
+			idx = detsim.SysBase + *sysFrom + step
+			plan = ig.GenIndexed(*prop, *tier, *sysFrom+step)
+		} else {
+			idx = *from + (step - nSys)
+			if *maxWall > 0 && idx%16 == 0 && time.Since(start) > *maxWall {
+				break
+			}
 		}
 		runSeed := detsim.Mix(*seed, *prop+"/"+*tier, idx)
-		var plan interface{}
-		if ig, ok := e.(detsim.IndexedGenerator); ok {
-			plan = ig.GenIndexed(*prop, *tier, idx)
-		}
 		if plan == nil {
 			plan = e.Gen(*prop, *tier, detsim.NewRand(runSeed))
 		}
@@ -168,7 +190,9 @@ func batch(args []string) {
 			atomic.StoreInt32(&simRunning, 0)
 			rec = ch.Rec
 		}
-		res.To = idx + 1
+		if step >= nSys {
+			res.To = idx + 1
+		}
 		res.Runs++
 		res.Steps += int64(rep.Steps)
 		res.LogHashXor ^= detsim.HashAdd(rep.LogHash, idx)
